@@ -192,6 +192,7 @@ fn run_case(rep: &mut Report, dir: &std::path::Path, layers: u8, files: &[(Strin
     let alen = sink.n;
     drop(sink);
     let tw = t0.elapsed().as_secs_f64();
+    beat();
     // (b) repair, streamed from the file
     let f = std::fs::File::open(&path).expect("open scratch archive");
     let (res, rpeak, rbig) = measured(|| repair_stream(f, &cfg));
@@ -210,9 +211,11 @@ fn run_case(rep: &mut Report, dir: &std::path::Path, layers: u8, files: &[(Strin
             ok = false;
         }
     }
+    beat();
     // (c) linear extraction
     let f = std::fs::File::open(&path).expect("open scratch archive");
     let (res, lpeak, lbig) = measured(|| linear_stream(f, &cfg, true));
+    beat();
     // … and with no file selected: skipped blocks must be discarded as they stream by
     let f = std::fs::File::open(&path).expect("open scratch archive");
     let (res0, lpeak0, lbig0) = measured(|| linear_stream(f, &cfg, false));
